@@ -60,6 +60,11 @@ CHECKS = {
         "TLC validates Req subseteq Avail and XGETBV=>OSXSAVE for every pair, and reports drift between the transcribed resolver macros and the real choice (currently 0 of 816,480). 'All choices agree' is decided by C01-C04, C08, C13, C20 which execute every variant.",
    note="Trusted: closure rules R1-R13 (what counts as an architecturally consistent CPU); the mnemonic/encoding classifier (lib/isa_classify.py); TLC.",
    technique="TLC enumeration of the TLA+ configuration space; trace validation of the real resolvers' selections against Dispatch!Avail"),
+ "C19": dict(cat="model_checking", ref="DESIGN.md §3 C19",
+   text="Recorded behaviour of the header writers and the resumable header readers is validated by TLC against the RFC 1952/1950 layouts in spec/Wrappers.tla: written bytes must be exactly as long as the layout and parse back (RFC byte order, FCHECK, CRC16) to the given fields, "
+        "or the required size with the stream untouched; readers are driven over every split point of headers with every subset of optional fields, 1-byte chunks, undersized user buffers with growth (resume) and without, python-gzip-made headers, FDICT zlib headers and random byte strings, "
+        "each chunk and user buffer flush against an inaccessible page; TLC requires documented codes, END_INPUT only with all input consumed, and on completion the fields and end position of the spec's own parse.",
+   note="Trusted: Wrappers.tla's transcription of the RFCs; harness h_hdr.c.", technique="trace validation of writer/reader call histories against the TLA+ RFC 1950/1952 layout spec"),
  "C20": dict(cat="exploration", ref="DESIGN.md §3 C20",
    text="Exhaustive sweep over (variant, len 0..N, alignment, position of a single non-zero byte, guard-page placement) of the zero-detect routine; aggregates per (variant, len) are judged by TLC against spec/MemZero.tla.",
    note="Trusted: aggregation in h_mem.c; TLC.", technique="exhaustive enumeration of the implementation input space within N, judged by TLC against the TLA+ definition"),
